@@ -1,6 +1,10 @@
-//! Kani harnesses compiled inside the crate as a child module (sees private items).
+//! Kani harnesses compiled inside `saphyr::emitter` as a child module (sees private items).
+//! C09 (scalar-string half of the round trip): a string the emitter writes plain resolves back to the
+//! same string; a string it writes double-quoted decodes back to itself.
 #![allow(dead_code, unused_imports, clippy::all)]
 use super::*;
+use crate::Scalar;
+use std::borrow::Cow;
 
 #[path = "/verif/kani/common/sym.rs"]
 pub mod sym;
@@ -9,4 +13,275 @@ pub mod sym;
 mod playback {
     use super::*;
     include!("/verif/.work/playback/emitter.rs");
+}
+
+/// Contract stub for `<f64 as FromStr>::from_str` (same as in the C08 harnesses): accepts exactly
+/// the std-documented grammar.
+fn f64_class(b: &[u8]) -> u8 {
+    let n = b.len();
+    let mut i = 0;
+    let mut neg = false;
+    if i < n && (b[i] == b'+' || b[i] == b'-') {
+        neg = b[i] == b'-';
+        i += 1;
+    }
+    let t = &b[i..];
+    if t.eq_ignore_ascii_case(b"inf") || t.eq_ignore_ascii_case(b"infinity") {
+        return if neg { 3 } else { 2 };
+    }
+    if t.eq_ignore_ascii_case(b"nan") {
+        return 4;
+    }
+    let mut digits = 0;
+    while i < n && b[i].is_ascii_digit() {
+        i += 1;
+        digits += 1;
+    }
+    if i < n && b[i] == b'.' {
+        i += 1;
+        while i < n && b[i].is_ascii_digit() {
+            i += 1;
+            digits += 1;
+        }
+    }
+    if digits == 0 {
+        return 0;
+    }
+    if i < n && (b[i] == b'e' || b[i] == b'E') {
+        i += 1;
+        if i < n && (b[i] == b'+' || b[i] == b'-') {
+            i += 1;
+        }
+        let mut ed = 0;
+        while i < n && b[i].is_ascii_digit() {
+            i += 1;
+            ed += 1;
+        }
+        if ed == 0 {
+            return 0;
+        }
+    }
+    if i == n {
+        1
+    } else {
+        0
+    }
+}
+pub fn f64_from_str_stub(s: &str) -> Result<f64, std::num::ParseFloatError> {
+    match f64_class(s.as_bytes()) {
+        1 => {
+            let v: f64 = kani::any();
+            kani::assume(!v.is_nan());
+            Ok(v)
+        }
+        2 => Ok(f64::INFINITY),
+        3 => Ok(f64::NEG_INFINITY),
+        4 => Ok(f64::NAN),
+        _ => Err("".parse::<f32>().unwrap_err()),
+    }
+}
+
+/// The property's 20-symbol alphabet for strings: indicators, blanks, quotes, digits and the
+/// letters of type-like words.
+const STR_ALPHABET: [u8; 24] = [
+    b'0', b'1', b'7', b'x', b'o', b'e', b'.', b'+', b'-', b'~', b'n', b'u', b'l', b't', b'r', b'f', b'a', b's', b'i', b'N', b'_', b'E', b'y', b'I',
+];
+
+fn plain_lemma<const N: usize>() {
+    let mut buf = [0u8; N];
+    let n: usize = kani::any();
+    kani::assume(n <= N);
+    let mut i = 0;
+    while i < N {
+        let k: u8 = kani::any();
+        kani::assume((k as usize) < STR_ALPHABET.len());
+        buf[i] = STR_ALPHABET[k as usize];
+        i += 1;
+    }
+    sym::note_bytes("string", &buf[..n]);
+    let s = unsafe { std::str::from_utf8_unchecked(&buf[..n]) };
+    if !need_quotes(s) {
+        kani::cover!(n == N, "must: an unquoted string of full length reached");
+        let r = Scalar::parse_from_cow(Cow::Borrowed(s));
+        match &r {
+            Scalar::String(x) => assert!(x.len() == n, "C09: text changed"),
+            _ => assert!(false, "C09: a string the emitter writes without quotes loads back as another type"),
+        }
+        std::mem::forget(r);
+    }
+}
+
+#[kani::proof]
+#[kani::unwind(26)]
+#[kani::stub(<f64 as std::str::FromStr>::from_str, f64_from_str_stub)]
+pub fn c09_unquoted_strings_resolve_as_strings_3() {
+    plain_lemma::<3>();
+}
+#[kani::proof]
+#[kani::unwind(26)]
+#[kani::stub(<f64 as std::str::FromStr>::from_str, f64_from_str_stub)]
+pub fn c09_unquoted_strings_resolve_as_strings_4() {
+    plain_lemma::<4>();
+}
+#[kani::proof]
+#[kani::unwind(26)]
+#[kani::stub(<f64 as std::str::FromStr>::from_str, f64_from_str_stub)]
+pub fn c09_unquoted_strings_resolve_as_strings_5() {
+    plain_lemma::<5>();
+}
+
+/// Fixed-capacity sink for `escape_str`.
+struct Sink {
+    b: [u8; 40],
+    n: usize,
+}
+impl fmt::Write for Sink {
+    fn write_str(&mut self, s: &str) -> fmt::Result {
+        let bytes = s.as_bytes();
+        let mut i = 0;
+        while i < bytes.len() {
+            if self.n >= 40 {
+                return Err(fmt::Error);
+            }
+            self.b[self.n] = bytes[i];
+            self.n += 1;
+            i += 1;
+        }
+        Ok(())
+    }
+}
+
+fn hexv(b: u8) -> Option<u32> {
+    match b {
+        b'0'..=b'9' => Some((b - b'0') as u32),
+        b'a'..=b'f' => Some((b - b'a' + 10) as u32),
+        b'A'..=b'F' => Some((b - b'A' + 10) as u32),
+        _ => None,
+    }
+}
+
+/// Reference decoder for a one-line double-quoted scalar (YAML 1.2 escapes the emitter may use; any
+/// other escape or a raw control character is rejected). Writes bytes into `out`.
+fn ref_decode_dq(text: &[u8], out: &mut [u8; 16]) -> Option<usize> {
+    let n = text.len();
+    if n < 2 || text[0] != b'"' || text[n - 1] != b'"' {
+        return None;
+    }
+    let mut i = 1;
+    let mut m = 0;
+    while i < n - 1 {
+        let b = text[i];
+        if b == b'"' || b < 0x20 || b == 0x7f {
+            return None;
+        }
+        if b == b'\\' {
+            if i + 1 >= n - 1 {
+                return None;
+            }
+            let e = text[i + 1];
+            let v: u32 = match e {
+                b'"' => 0x22,
+                b'\\' => 0x5c,
+                b'b' => 0x08,
+                b't' => 0x09,
+                b'n' => 0x0a,
+                b'f' => 0x0c,
+                b'r' => 0x0d,
+                b'u' => {
+                    if i + 5 >= n - 1 {
+                        return None;
+                    }
+                    let mut v = 0;
+                    let mut k = 0;
+                    while k < 4 {
+                        match hexv(text[i + 2 + k]) {
+                            Some(h) => v = v * 16 + h,
+                            None => return None,
+                        }
+                        k += 1;
+                    }
+                    i += 4;
+                    v
+                }
+                _ => return None,
+            };
+            if v >= 0x80 {
+                return None; // the emitter only escapes ASCII
+            }
+            if m >= 16 {
+                return None;
+            }
+            out[m] = v as u8;
+            m += 1;
+            i += 2;
+        } else {
+            if m >= 16 {
+                return None;
+            }
+            out[m] = b;
+            m += 1;
+            i += 1;
+        }
+    }
+    Some(m)
+}
+
+/// escape_str output is a one-line double-quoted scalar that decodes back to the input, for every
+/// valid UTF-8 string of up to 3 characters (all ASCII incl. every control character, and 2-byte
+/// characters).
+fn escape_roundtrip(maxchars: usize) {
+    let mut buf = [0u8; 6];
+    let mut n = 0;
+    let count: usize = kani::any();
+    kani::assume(count <= maxchars);
+    let mut i = 0;
+    while i < 3 {
+        if i < count {
+            let c: u32 = kani::any();
+            kani::assume(c < 0x800);
+            if c < 0x80 {
+                buf[n] = c as u8;
+                n += 1;
+            } else {
+                buf[n] = 0xC0 | (c >> 6) as u8;
+                buf[n + 1] = 0x80 | (c & 0x3F) as u8;
+                n += 2;
+            }
+        }
+        i += 1;
+    }
+    sym::note_bytes("string", &buf[..n]);
+    let s = unsafe { std::str::from_utf8_unchecked(&buf[..n]) };
+    let mut sink = Sink { b: [0u8; 40], n: 0 };
+    let r = escape_str(&mut sink, s);
+    assert!(r.is_ok(), "C09: escape_str failed");
+    let mut out = [0u8; 16];
+    let d = ref_decode_dq(&sink.b[..sink.n], &mut out);
+    assert!(d.is_some(), "C09: escape_str wrote something that is not a one-line double-quoted scalar");
+    let m = d.unwrap();
+    assert!(m == n, "C09: escaped string decodes to a different length");
+    let mut j = 0;
+    while j < 6 {
+        if j < n {
+            assert!(out[j] == buf[j], "C09: escaped string decodes to different text");
+        }
+        j += 1;
+    }
+    kani::cover!(sink.n >= 8, "must: an escape written");
+}
+
+#[kani::proof]
+#[kani::unwind(42)]
+pub fn c09_escape_str_roundtrip_1() {
+    escape_roundtrip(1);
+}
+#[kani::proof]
+#[kani::unwind(42)]
+pub fn c09_escape_str_roundtrip_2() {
+    escape_roundtrip(2);
+}
+#[kani::proof]
+#[kani::unwind(42)]
+pub fn c09_escape_str_roundtrip_3() {
+    escape_roundtrip(3);
 }
